@@ -136,6 +136,12 @@ class Machine:
         p = self.path(e, fr)
         if p in self.mem:
             return self.mem[p]
+        # a cell inside a region that was memset as a whole and not stored since
+        for k in range(len(p) - 1, 0, -1):
+            m = self.mem.get(p[:k] + ('*memset*',))
+            if m is not None and m.v == 0:
+                t = self.ftype(e) or (32, True)
+                return V(0, t[0], t[1])
         # a pointer-valued path that is only used as a base (aliases) is resolved by path(); plain unknown otherwise
         raise Unknown('read of undefined %s' % '.'.join(map(str, p)))
 
